@@ -779,6 +779,22 @@ func (ls *LState) kill() {
 	}
 }
 
+// finishYield gives the call that yielded the number of results it asked for: the nvalues values a resume has just
+// pushed are truncated or padded with nil, as for every other call (an open call takes them all)
+func (ls *LState) finishYield(nvalues int) {
+	cf := ls.currentFrame
+	if cf == nil || cf.Fn.IsG || cf.Pc < 1 {
+		return
+	}
+	inst := cf.Fn.Proto.Code[cf.Pc-1]
+	if opGetOpCode(inst) != OP_CALL {
+		return
+	}
+	if nret := opGetArgC(inst) - 1; nret >= 0 {
+		ls.reg.SetTop(ls.reg.Top() - nvalues + nret)
+	}
+}
+
 func (ls *LState) indexToReg(idx int) int {
 	base := ls.currentLocalBase()
 	if idx > 0 {
@@ -1992,6 +2008,7 @@ func (ls *LState) Resume(th *LState, fn *LFunction, args ...LValue) (ResumeState
 		for _, arg := range args {
 			th.Push(arg)
 		}
+		th.finishYield(len(args))
 	}
 	top := ls.GetTop()
 	threadRun(th)
